@@ -18,6 +18,10 @@ A scenario (JSON-able):
      "rc": i,                            # the application gives the request up -- request.response.cancel(), what
                                          # asyncio.wait_for does on time-out -- just before arrival i (0 = before
                                          # the first response; later the future is complete and nothing changes)
+     "oc": i,                            # the application calls request.observation.cancel() (it may still want the
+                                         # response) just before arrival i (0 = before the first response)
+     "cancel_on_response": bool,         # the application only wanted the response: a task of it does
+                                         # `await request.response; request.observation.cancel()`
      "tuning": kind,                     # the request's transport_tuning as the application passes it
                                          # (c07_pipe.TUNINGS: none, instance, the classes Reliable / Unreliable, ...)
      "at": [ticks, ...],                 # harness clock (standing in for `time` inside aiocoap.protocol) at each
@@ -145,11 +149,13 @@ class AppBench:
 
         Error = self.error.Error
         cancel_at = sc.get("cancel_at")
+        in_callback = []
 
         def app_callback(m):
             n = int(m.payload or b"0")
             seen.append(("item", n))
             if n == cancel_at:
+                in_callback.append(n)
                 req.observation.cancel()
 
         if sc["consumer"] == "callbacks":
@@ -244,6 +250,20 @@ class AppBench:
                 await asyncio.sleep(0)
             await (consume_polling() if sc["consumer"] == "poll" else consume())
 
+        matched = []
+        oc_at, n_x = [], [0]             # before which arrival the application's cancel ran
+        settled = []
+        only = None
+        if sc.get("cancel_on_response"):
+            async def only_the_response():
+                try:
+                    await req.response
+                except Exception:
+                    return
+                seen.append(("oc",))
+                oc_at.append(len(matched) + n_x[0])
+                req.observation.cancel()
+            only = loop.create_task(only_the_response())
         try:
             if sc.get("rc") is not None and sc["consumer"] in ("iter", "poll"):
                 # the application iterates from the start (and waits for the response elsewhere)
@@ -256,9 +276,18 @@ class AppBench:
                         await turn(8)
                     req.response.cancel()
                     await turn(3)
+                if sc.get("oc") == idx:
+                    seen.append(("oc",))
+                    oc_at.append(idx)
+                    req.observation.cancel()
+                    await turn(3)
                 if a is None:
                     break
                 await turn(a[0])
+                if a[0] and idx >= 1 and (("oc",) in seen or in_callback) and not settled:
+                    # the application has cancelled and the library's tasks get a quiet moment before this arrival
+                    await turn(8)
+                    settled.append(idx)
                 if any(w == idx for w, _ in sc.get("others") or []):
                     start_others(idx)
                     await turn(2)
@@ -271,10 +300,14 @@ class AppBench:
                             m.opt.observe = a[3]
                         m.token = sent.token
                         m.remote = remote
-                        tman.process_response(m)
+                        # (whether the token manager knew the token: what makes a message layer acknowledge or reject)
+                        matched.append([idx, None])
+                        matched[-1][1] = tman.process_response(m)
                     elif a[2] == 0:
+                        n_x[0] += 1
                         ti.monitors[mine[0]]()       # the message layer reports a Reset of the request
                     else:
+                        n_x[0] += 1
                         tman.dispatch_error(self.make_exc(a[2]), remotes[a[3] if len(a) > 3 else 0])
                 except Exception as e:
                     escaped.append((idx, type(e).__name__))
@@ -293,6 +326,8 @@ class AppBench:
                     consumer.cancel()
                 await asyncio.gather(consumer, return_exceptions=True)
             snapshot = list(seen)         # what follows is the harness cleaning up
+            if only is not None and not only.done():
+                only.cancel()
             other_states = []
             for rem, r2 in others:
                 f = r2.response
@@ -307,7 +342,8 @@ class AppBench:
             after_shutdown = seen[len(snapshot):]
             loop.set_exception_handler(old_handler)
         return {"seen": snapshot, "resp": resp, "escaped": escaped, "loop_errors": loop_errors,
-                "pending": pending, "after_shutdown": after_shutdown, "others": other_states}
+                "pending": pending, "after_shutdown": after_shutdown, "others": other_states, "matched": matched,
+                "oc_at": oc_at[0] if oc_at else None, "settled_at": settled[0] if settled else None}
 
 
 # ---------------------------------------------------------------------------------------------
@@ -339,6 +375,43 @@ def oracle_others(sc, res):
     if sc.get("rc") is None and got != exp:
         return (f"the application's other requests (peer, state): expected {exp}, found {got} -- a transport failure "
                 "concerns exactly the requests outstanding to the peer it is reported for"), "app:other-requests"
+    return "", None
+
+
+def oracle_token_released(sc, res, arr, end):
+    """"After the end ... later notifications on that token are rejected like unknown responses": once the
+    observation has ended -- not observable, final response, transport failure of its peer -- nothing that arrives
+    on the token is known to the token manager any more.  When the application cancels the observation itself
+    (observation.cancel() somewhere, or from inside its callback) the client notices at the next notification --
+    it has no other occasion: stated allowance -- so at most ONE more is still taken, all later ones are rejected.
+    With the default API the block-wise layer reacts to the cancel in its task: what arrives in the same burst (before
+    the event loop ran the library's tasks) does not count.
+    (`arr`: the arrivals that concern this observation's peer, `end`: how the oracle says it ends.)"""
+    ended_at = None
+    if end is not None:
+        for i, a in enumerate(arr):
+            if a[1] == "X" or not is_notification(a[2], a[3]):
+                ended_at = sc["arrivals"].index(a)
+                break
+    cancelled_at = res.get("oc_at")
+    if sc.get("cancel_at") is not None and ("item", sc["cancel_at"]) in res["seen"]:
+        at = next(i for i, a in enumerate(sc["arrivals"]) if a[1] == "M" and a[4] == sc["cancel_at"]) + 1
+        cancelled_at = at if cancelled_at is None else min(at, cancelled_at)
+    if cancelled_at is not None and sc["blockwise"]:
+        cancelled_at = res.get("settled_at")
+    taken = 0
+    for idx, ok in res.get("matched", []):
+        if ended_at is not None and idx > ended_at and ok:
+            return (f"arrival {idx} {sc['arrivals'][idx][1:]} on the observation's token was still taken by the token "
+                    f"manager after the observation had ended at arrival {ended_at} {sc['arrivals'][ended_at][1:]} (it "
+                    "would be acknowledged, not rejected)"), "app:token-not-released"
+        if cancelled_at is not None and idx >= max(cancelled_at, 1) and ok:
+            taken += 1
+            if taken > 1:
+                return (f"the application cancelled the observation before arrival {cancelled_at}; {taken} later "
+                        f"notifications on its token were still taken by the token manager (the last: arrival {idx}) "
+                        "-- the token is never given up, every notification keeps being acknowledged"), \
+                    "app:token-not-released"
     return "", None
 
 
@@ -406,7 +479,28 @@ def oracle_app(sc, res):
                     last, tlast = a[3], t
     if res["resp"] != want_resp:
         return f"response future: expected {want_resp}, got {res['resp']}", "app:response"
+    v, key = oracle_token_released(sc, res, arr, end)
+    if v:
+        return v, key
     allowed = accepted + ([final] if final is not None else [])
+    if ("oc",) in seen:
+        # the application cancelled the observation itself: nothing is handed to its callbacks or signalled afterwards
+        # (what it got before is judged like everything else); the response future was judged above
+        k = seen.index(("oc",))
+        if seen[k + 1:]:
+            return f"the application cancelled the observation, then was handed {seen[k + 1:]}", "app:after-cancel"
+        seen = seen[:k]
+        if all(x[0] == "item" for x in seen):
+            # cancelled while it ran
+            j = 0
+            for x in seen:
+                while j < len(allowed) and allowed[j] != x[1]:
+                    j += 1
+                if j == len(allowed):
+                    return f"handed over {seen}: not a freshness-ordered subsequence (allowed {allowed})", "app:order"
+                j += 1
+            return "", None
+        # (it had ended before: the cancel changes nothing)
     items = []
     k = 0
     while k < len(seen) and seen[k][0] == "item":
